@@ -4,7 +4,7 @@ import os
 import random
 
 from . import engine
-from .common import ToolError, seed, log, NCPU
+from .common import ToolError, EnoughViolations, seed, log, NCPU
 from .engine import Session, model_check, generate, steps_of, transition_steps, TransitionBatch, require_outcomes
 from .replay import ALL
 
@@ -186,6 +186,20 @@ def c05(chk, tier):
                      invariants=[], on_value=on, workers=4, timeout=3600)
             if batch.n == 0:
                 raise ToolError("no open transition generated")
+            batch.run()
+        # the same with messages of several KiB (anything the receiver might keep per message - a size-gated fast path)
+        for aead in ((1, 2, 3) if thorough else (rot([1, 2, 3], 1),)):
+            batch = TransitionBatch(ses, label="open-transition, large messages, aead=%d" % aead)
+
+            def onl(tr, aead=aead, batch=batch):
+                l = tr["last"]
+                if l["op"] == "open":
+                    batch.add(tr)
+                    d = l["plain"]["d"]
+                    chk.case(("tl", aead, d["k"], d["s"], tuple(l["pre"]["seq"]), l["pre"]["ovf"], l["form"], l["kind"], l["err"]))
+            generate(chk, "MC_Seq", "MC_Seq.cfg", "gen_trl_%d" % aead,
+                     seq_over(AeadC=aead, Menu='"small"', Emit=True, Starts='"zero"', LenVar=11, MaxSeals=2, MaxOpens=1),
+                     invariants=[], on_value=onl, workers=4, timeout=3600)
             batch.run()
         # a message sealed at position 0 must not open at any position 2^j (every single bit of the counter matters)
         for aead in (1, 2, 3):
@@ -557,9 +571,15 @@ def c07(chk, tier):
             setup_transitions(chk, ses, "gen_bind_%d" % kem,
                               setup_over(KemSet="{%d}" % kem, KdfSet="{1, 2, 3}" if thorough else kset([rot([1, 2, 3], i)]),
                                          AeadSet="{1, 3}",
-                                         Vals='"small"', Shape='"all"' if (thorough and kem == 32) else '"one"', Perturb=qset(C07_KINDS),
+                                         Vals='"small"', Shape='"one"', Perturb=qset(C07_KINDS),
                                          Emit=True, MaxSeals=1, MaxOpens=1, MaxExports=2 if thorough else 1),
                               want=want, casekey=tr_key("c07"))
+            if thorough and kem == 32:
+                # every sender shape of the small value space (the design-level search above covers them on the model)
+                setup_transitions(chk, ses, "gen_bind_all",
+                                  setup_over(KemSet="{32}", KdfSet="{1}", AeadSet="{1}", Vals='"small"', Shape='"all"',
+                                             Perturb=qset(C07_KINDS), Emit=True, MaxSeals=1, MaxOpens=1, MaxExports=1),
+                                  want=want, casekey=tr_key("c07"))
             # byte level: every bit of 32/65-byte info / psk / psk_id, appended and prepended zero bytes
             if not thorough and i != 0:
                 continue
@@ -569,8 +589,18 @@ def c07(chk, tier):
                                          Vals='"leaf"', Shape='"one"', Perturb=qset(C07_BYTE_KINDS),
                                          Emit=True, MaxSeals=1, MaxOpens=1, MaxExports=1),
                               want=want, casekey=tr_key("c07b"))
+        # every LENGTH 0..N of info / psk / psk_id (one at a time): the receiver differs in the last or second-to-last byte
+        setup_transitions(chk, ses, "gen_lastbyte",
+                          setup_over(KemSet="{32}", KdfSet=kset([rot([1, 2, 3], 1)]), AeadSet=kset([rot([1, 2, 3], 2)]), ModeSet="{1}",
+                                     Vals='"leaf"', Shape='"sweep"', SweepMax=1100 if thorough else 600, Perturb='{"none", "lastbyte"}',
+                                     Emit=True, MaxSeals=1, MaxOpens=1, MaxExports=1),
+                          want=lambda last, tr: last["op"] in ("setup_r", "open"), casekey=tr_key("c07l"))
         traces(chk, "session", 10 if thorough else 2, "random sessions with one differing receiver argument",
                nsessions=8, nsteps=12, mismatch=1.0)
+        # the differing value collides with the sender's under a weak digest (a cache keyed by a hash of info / psk_id / psk)
+        for suite in ([(32, 1, 1), (16, 2, 2), (32, 3, 3), (17, 1, 65535)] if thorough else [rot([(32, 1, 1), (16, 2, 2), (32, 3, 3)], 0)]):
+            traces(chk, "weakhash", 1, "receiver argument that collides with the sender's under a non-cryptographic digest",
+                   suite=suite)
     finally:
         ses.close()
     require_outcomes(chk, ['setup_r/ok', 'open/ok', 'open/err/OpenError', 'export/ok'])
@@ -729,8 +759,8 @@ def c11(chk, tier):
 
                 def on(tr, batch=batch, kdf=kdf, aead=aead):
                     l = tr["last"]
-                    if l["op"] != "export" and aead != 65535:
-                        return
+                    if l["op"] != "export" and aead != 65535 and (l["kind"] == "ok" or l["op"] not in ("seal", "open")):
+                        return      # (refused / rejected seals and opens stay: the exports of that state are repeated after them)
                     batch.add(tr)
                     chk.case(("x", kdf, aead, l["op"], l["c"], l["kind"], l["err"], json.dumps(l["plain"], sort_keys=True),
                               json.dumps(l["bytes"], sort_keys=True)[:80], tuple(l["pre"]["seq"]), l["pre"]["ovf"]))
@@ -747,9 +777,9 @@ def c11(chk, tier):
                 l = tr["last"]
                 if l["op"] == "export" and l["c"] == "r":
                     batch.add(tr)
-                    chk.case(("ctxlen", kdf, blen_of(l["bytes"]["exporter_ctx"])))
+                    chk.case(("ctxlen", kdf, blen_of(l["bytes"]["exporter_ctx"]), l["plain"]["len"]))
             generate(chk, "MC_Seq", "MC_Seq.cfg", "gen_ctxsweep_%d" % kdf,
-                     seq_over(AeadC=2, KdfC=kdf, Starts='"zero"', ExpMenu='"ctxsweep"', SweepFrom=0, SweepTo=300 if thorough else 200,
+                     seq_over(AeadC=2, KdfC=kdf, Starts='"zero"', ExpMenu='"ctxsweep"', SweepFrom=0, SweepTo=1100 if thorough else 520,
                               Emit=True, MaxSeals=0, MaxExports=1),
                      invariants=[], on_value=onl, workers=4)
             batch.run()
@@ -1060,6 +1090,31 @@ def c13(chk, tier):
                      seq_over(AeadC=aead, Starts='"edge"', Menu='"lengths"', Emit=True, MaxSeals=1, MaxOpens=1),
                      invariants=[], on_value=ono, workers=4)
             batch.run()
+        # EVERY length 0..N of the exporter context (and +-2 around every power of two up to 2^16), raw contexts
+        for kdf in ((1, 2, 3) if thorough else (rot([1, 2, 3], 1),)):
+            batch = TransitionBatch(ses, label="exporter-context lengths kdf=%d" % kdf)
+
+            def onx(tr, batch=batch, kdf=kdf):
+                l = tr["last"]
+                if l["op"] == "export":
+                    batch.add(tr)
+                    chk.case(("xl", kdf, l["c"], blen_of(l["bytes"]["exporter_ctx"]), l["plain"]["len"]))
+            generate(chk, "MC_Seq", "MC_Seq.cfg", "gen_ctxlen_%d" % kdf,
+                     seq_over(AeadC=rot([1, 2, 3], kdf), KdfC=kdf, Starts='"zero"', ExpMenu='"ctxsweep"', SweepFrom=0,
+                              SweepTo=1100 if thorough else 700, Emit=True, MaxSeals=0, MaxExports=1),
+                     invariants=[], on_value=onx, workers=4)
+            generate(chk, "MC_Seq", "MC_Seq.cfg", "gen_ctxpow2_%d" % kdf,
+                     seq_over(AeadC=rot([1, 2, 3], kdf), KdfC=kdf, Starts='"zero"', ExpMenu='"ctxpow2"', Emit=True, MaxSeals=0, MaxExports=1),
+                     invariants=[], on_value=onx, workers=4)
+            batch.run()
+        # EVERY length 0..N of info, psk, psk_id (one at a time) through both setups and an export
+        skem = rot(list(KEMS), 0)
+        setup_transitions(chk, ses, "gen_len_sweep",
+                          setup_over(KemSet="{%d}" % skem, KdfSet=kset([rot([1, 2, 3], 0)]), AeadSet=kset([rot([1, 2, 3], 2)]),
+                                     ModeSet="{0, 3}", Vals='"leaf"', Shape='"sweep"', SweepMax=1100 if thorough else 600,
+                                     Perturb='{"none"}', Emit=True, MaxExports=1),
+                          casekey=tr_key("c13s"), compare_bytes=False,
+                          want=lambda last, tr: last["op"] in ("setup_s", "setup_r") or (last["op"] == "export" and not last["bytes"]["exporter_ctx"]))
         # setup / seal / open / export / single-shot with very long info, psk, psk_id, aad, plaintext, exporter context
         for i, kem in enumerate(KEMS):
             over = setup_over(KemSet="{%d}" % kem, KdfSet="{1, 2, 3}" if thorough else kset([rot([1, 2, 3], i)]),
@@ -1405,12 +1460,142 @@ def c18(chk, tier):
             if nwalk[0] == 0:
                 raise ToolError("no schedule generated")
         traces(chk, "session", 8 if thorough else 2, "random sessions on random threads", nsessions=6, nsteps=30, threads=4)
+        c18_stress(chk, ses, 0)
+        c18_stress(chk, ses, 20000 if thorough else 2500)
+        for nsuites in (2, 5, 12):
+            if not c18_stress(chk, ses, 100000 if thorough else 10000, hammer=nsuites):
+                break
     finally:
         ses.close()
     chk.cov["rule"] = ("interleavings and thread placements (3 threads) of three sessions with equal parameters (other / same RNG "
                        "script) over setup, seal, open of every sender's messages by every receiver, export; each schedule run "
                        "sequentially on worker threads and again with one truly concurrent thread per context, plus concurrent "
                        "shared-reference exports; distinct = distinct (suite, mode, schedule with thread placement)")
+
+
+# (suite, mode) per thread: every pair of suite components is shared by two entries that differ in the third (a cache
+# keyed by part of the suite id), export-only suites of one KEM with different KDFs, all four modes
+C18_STRESS_SUITES = [((32, 1, 1), 0), ((32, 1, 2), 0), ((32, 2, 1), 0), ((16, 1, 1), 0), ((16, 1, 3), 2), ((16, 2, 3), 2),
+                     ((17, 2, 2), 1), ((17, 2, 3), 3), ((18, 3, 3), 2), ((18, 3, 65535), 0), ((32, 3, 65535), 0),
+                     ((32, 1, 65535), 0), ((16, 3, 1), 3), ((17, 1, 1), 2), ((32, 2, 3), 1), ((18, 1, 2), 2)]
+
+
+def c18_stress(chk, ses, reps, nthreads=16, hammer=0, ex=None):
+    """Determinism under real concurrency ACROSS suites and modes: one session script per thread (setup of both sides
+    from a scripted RNG, seal, open, exports; every mode on at least two different suites), each thread repeating its
+    script `reps` times after a common barrier.  The specification's prediction for a call is a function of its
+    arguments alone (MC_Par: Determinism, Frame), so every repetition on every thread must return exactly what the
+    same script returned when it ran alone, sequentially."""
+    import hashlib
+    ex = ex or ses.ex
+    hx = lambda tag, n: hashlib.shake_128(("c18stress-%d-%s" % (seed(), tag)).encode()).hexdigest(n)
+    lists, base = [], []
+    for t in range(nthreads):
+        (kem, kdf, aead), mode = C18_STRESS_SUITES[t % len(C18_STRESS_SUITES)]
+        if hammer:
+            # nothing but setups, as fast as they go: the cheapest KEM, every thread another (KDF, AEAD), no PSK
+            # (`hammer` distinct suites: with few, several threads share each suite - a value cached for one suite is
+            # re-used often and evicted often; with many, everybody evicts everybody)
+            u = t % hammer
+            kem, kdf, aead, mode = 32, 1 + u % 3, (1, 2, 3, 65535)[(u // 3) % 4], (0, 2)[(t // hammer) % 2]
+        nsk = {32: 32, 16: 32, 17: 48, 18: 66}[kem]
+        # every thread its own recipient; ONE sender identity per KEM (something remembered per sender must not leak
+        # from one recipient's session into another's)
+        kp = [ex.call({"op": "derive_keypair", "kem": kem, "ikm": hx(("ikm%d-r" % t) if i == 0 else ("ikm-s-%d" % kem), nsk)})
+              for i in range(2)]
+        if not all("ok" in k for k in kp):
+            raise ToolError("stress: derive_keypair failed: %s" % json.dumps(kp)[:300])
+        common = {"suite": [kem, kdf, aead], "mode": mode, "info": hx("info%d" % t, 9) if mode else ""}
+        if mode in (1, 3):
+            common.update(psk=hx("psk%d" % t, 32), psk_id=hx("pskid%d" % t, 5))
+        snd = dict(common, op="setup_s", ctx="x%d_s" % t, rng=hx("rng%d" % t, nsk + 70), pk_r=kp[0]["ok"]["pk"])
+        rcv = dict(common, op="setup_r", ctx="x%d_r" % t, sk_r=kp[0]["ok"]["sk"])
+        if mode in (2, 3):
+            snd.update(sk_s=kp[1]["ok"]["sk"], pk_s=kp[1]["ok"]["pk"])
+            rcv.update(pk_s=kp[1]["ok"]["pk"])
+        def session(exq):
+            """the thread's session on executor exq: (commands, events, first failing (command, event) or None)"""
+            cmds, evs = [], []
+
+            class Failed(Exception):
+                pass
+
+            def do(cmd):
+                ev = exq.call(cmd)
+                cmds.append(cmd)
+                evs.append(ev)
+                if "ok" not in ev:
+                    raise Failed()
+                return ev["ok"]
+            try:
+                enc = do(snd)["enc"]
+                do(dict(rcv, enc=enc))
+                if aead != 65535 and not hammer:
+                    for k in range(2):
+                        ct = do({"op": "seal", "ctx": snd["ctx"], "form": "alloc", "pt": hx("pt%d-%d" % (t, k), 21), "aad": hx("aad%d" % t, 3)})["ct"]
+                        do({"op": "open", "ctx": rcv["ctx"], "form": "alloc", "ct": ct, "aad": hx("aad%d" % t, 3)})
+                for c in (snd["ctx"], rcv["ctx"]):
+                    do({"op": "export", "ctx": c, "len": 32, "exporter_ctx": hx("ectx%d" % t, 4)})
+            except Failed:
+                return cmds, evs, (cmds[-1], evs[-1])
+            return cmds, evs, None
+        cmds, evs, fail = session(ex)
+        if fail:
+            # a session that must work fails HERE: does it work in a process that has done nothing else?
+            from .execproc import Executor
+            with Executor() as ex2:
+                _, _, fail2 = session(ex2)
+            if fail2 is None:
+                chk.violation("%s (suite %s, mode %d) fails after this process's earlier sessions (%s) but the same session works "
+                              "in a fresh process" % (fail[0]["op"], [kem, kdf, aead], mode,
+                                                      json.dumps(fail[1].get("err") or fail[1].get("panic"))[:120]),
+                              {"kind": "history", "history": ex.history() or "too long", "event": fail[1],
+                               "mismatch": "fails only with history", "fingerprint": "c18-history-" + fail[0]["op"]})
+                raise EnoughViolations()
+            raise ToolError("stress: sequential baseline call failed: %s -> %s" % (json.dumps(fail[0])[:200], json.dumps(fail[1])[:200]))
+        lists.append(cmds)
+        base.append(evs)
+    strip = lambda e: {k: e.get(k) for k in ("ok", "err", "panic", "seq", "ovf")}
+    if reps == 0:
+        # history independence: the same scripts, in the opposite order, in a process that has done nothing else
+        from .execproc import Executor
+        with Executor() as ex2:
+            for t in reversed(range(nthreads)):
+                for j, cmd in enumerate(lists[t]):
+                    ev = ex2.call(cmd)
+                    if strip(ev) != strip(base[t][j]):
+                        chk.violation("the result of %s (suite %s, mode %d) depends on which calls the process made before it: "
+                                      "it differs between two processes that run the same session scripts in opposite orders"
+                                      % (cmd["op"], lists[t][0]["suite"], lists[t][0]["mode"]),
+                                      {"kind": "order", "scripts": lists, "script": t, "call": j, "event_forward": base[t][j],
+                                       "event_backward": ev, "fingerprint": "c18-order-" + cmd["op"]})
+                        return False
+        chk.case(("order", nthreads))
+        chk.trace_ok()
+        return True
+    out = ex.call({"op": "par", "threads": lists, "reps": reps})
+    if "ok" not in out:
+        raise ToolError("par (stress) failed: %s" % json.dumps(out)[:300])
+    chk.case(("stress", nthreads, reps, hammer))
+    for t, res in enumerate(out["ok"]["results"]):
+        div = res[-1].get("diverged") if res and "diverged" in res[-1] else None
+        first = res[:len(lists[t])]
+        bad = next((j for j, (a, b) in enumerate(zip(first, base[t])) if strip(a) != strip(b)), None)
+        if bad is None and div is None:
+            continue
+        j = bad if bad is not None else div["j"]
+        got = first[bad] if bad is not None else div["event"]
+        chk.violation("concurrent sessions of different suites: thread %d (suite %s, mode %d) call %s returns something else "
+                      "than the same call with the same arguments made alone (repetition %s)"
+                      % (t, lists[t][0]["suite"], lists[t][0]["mode"], lists[t][j]["op"], 0 if bad is not None else div["rep"]),
+                      {"kind": "par_stress", "threads": lists, "reps": reps, "thread": t, "call": j,
+                       "concurrent_event": got, "sequential_event": base[t][j], "fingerprint": "c18-stress-" + lists[t][j]["op"]})
+        return False
+    for cmds in lists:
+        for c in {c["ctx"] for c in cmds}:
+            ex.call({"op": "drop", "ctx": c})
+    chk.trace_ok()
+    return True
 
 
 def c18_concurrent(chk, ses, steps, npro):
